@@ -5,7 +5,8 @@ MANIFEST = dict(
     text="Structural clauses of C03 decided on the real PLS() and PLSYPredictorAllLV() bodies for bounded concrete shapes with all values symbolic: "
          "model field shapes, nlv clamp, component pc stored in column pc of every score/loading/weight table, recalculated responses laid "
          "out LV-major (column ny*a+j), and stored recalculation residual = recalculated - matching observed response for every response "
-         "and every a. Heavy numerical callees enter through contract-derived stubs. Orthogonality / reconstruction identities are floating-"
+         "and every a; PLSYPredictor's prediction formula ((sum over the latent variables used of b*score*yloading) * y scaling + y average) and PLSScorePredictor's wiring "
+         "are decided on their real bodies (the formula on exact instances: integer cells 0..3, independent of the evaluation order). Heavy numerical callees enter through contract-derived stubs. Orthogonality / reconstruction identities are floating-"
          "point fixed-point statements and are not decided (DESIGN 4 C03).",
     note="Bounded: shapes n<=3, xcols<=2, ny<=2..3, nlv<=2..3 enumerated one solver call each. LVCalc, MatrixPreprocess, calcVarExpressed "
          "(and PLSYPredictor in the quick tier) are represented by assumed contracts (stubs/pls_stubs.c): arbitrary values of the promised shape. "
